@@ -419,9 +419,12 @@ def replay(pyhf, backend, precision, chunk, header, seed):
                 else:
                     out["applied_invalid_ws"] += 1
                     invalid_result = True
-                    if err is None or not isinstance(err, type(ws_exc)):
-                        add(case, f"patched document is not a workspace ({type(ws_exc).__name__}) but {which} {det['observed']}", det,
+                    if err is None:
+                        add(case, f"patched document is not a workspace ({type(ws_exc).__name__}) but {which} returned", det,
                             [f"{pre[0]}:invalid_result_accepted", optag])
+                    elif not isinstance(err, type(ws_exc)):
+                        add(case, f"{which} raised {det['observed']} where the JSON patch applies (its result is refused as a workspace: {type(ws_exc).__name__})", det,
+                            [f"{pre[0]}:raises", f"exc:{type(err).__name__}", optag] + ([] if second else [f"keykind:{kk}", vtag]))
             else:
                 if err is None:
                     add(case, f"{which} returned a workspace where the definition demands {'/'.join(d['errs'])}", det,
